@@ -109,7 +109,7 @@ def print_assumptions(prop_file, out):
 
 def theorem_names(prop_file):
     src = open(os.path.join(COQ, prop_file)).read()
-    return re.findall(r'(?m)^Theorem (\w+)', src)
+    return re.findall(r'(?m)^\s*Theorem (\w+)', src)
 
 
 def coq_N_list(b):
